@@ -355,6 +355,10 @@ func (s cleanScn) execute(root string, mode Mode, count int, record bool) error 
 				if !record && c.Mut != "" {
 					call = mutatedCall(call, c.Mut)
 				}
+				if record && c.Mut == "lost_newline" {
+					// what was recorded had one more newline at its end (an end-of-file fixer touched the file / the value lost it)
+					call = Call{API: c.Call.API, Cfg: c.Call.Cfg, Vals: []Val{strVal(c.Call.snapText() + "\n")}}
+				}
 				r := call.invoke(cfg, ft)
 				out, err := outcomeOf(r)
 				if err != nil {
@@ -967,6 +971,9 @@ func TestC09_CleanReportsStale(t *testing.T) {
 
 // mutatedCall: the same call with a changed value or with a matcher that fails.
 func mutatedCall(c Call, mut string) Call {
+	if mut == "lost_newline" {
+		return c // the recorded value is the one that differs (see execute)
+	}
 	if mut == "matcher" && (c.API == "json" || c.API == "sjson" || c.API == "yaml") {
 		path := "no.such.path"
 		if c.API == "yaml" {
@@ -1004,6 +1011,10 @@ func genC20Scn(t *rapid.T) cleanScn {
 				s.Tests[ti].Calls[ci].Mut = "changed"
 			case 1:
 				s.Tests[ti].Calls[ci].Mut = "matcher"
+			case 2:
+				if c := s.Tests[ti].Calls[ci].Call; (c.API == "ssnap" || c.API == "snap") && len(c.Vals) == 1 && c.Vals[0].Kind == "str" && !hasTrailingCR(c.snapText()+"\n") {
+					s.Tests[ti].Calls[ci].Mut = "lost_newline"
+				}
 			}
 		}
 	}
@@ -1038,12 +1049,34 @@ func checkC20Scn(s cleanScn) error {
 	if err := checkSummaryTotals(r.sum, tally, skips); err != nil {
 		return fmt.Errorf("mode %+v count %d: %v", s.Mode, s.Count, err)
 	}
-	// the files Clean judges obsolete (unaddressed `.snap` files directly inside a visited directory) are listed, all of them
-	// and nothing else - whether or not they could be removed
+	// the files Clean judges obsolete (unaddressed `.snap` files directly inside a visited directory) are listed, all of them,
+	// each once, and nothing else - whether or not they could be removed
 	m := r.model
 	listed := map[string]bool{}
 	for _, f := range r.sum.Files {
+		if listed[relTo(r.root, f)] {
+			return fmt.Errorf("file %q is listed twice in the summary: %q", relTo(r.root, f), clip(r.sum.Raw))
+		}
 		listed[relTo(r.root, f)] = true
+	}
+	// an id is listed at most as often as there are used files holding an entry with that id
+	holders := map[string]int{}
+	for file := range m.multiLive {
+		es, _ := refParse(r.preClean[file].Data)
+		seen := map[string]bool{}
+		for _, e := range es {
+			if !seen[string(e.ID)] {
+				seen[string(e.ID)] = true
+				holders[string(e.ID)]++
+			}
+		}
+	}
+	times := map[string]int{}
+	for _, id := range r.sum.Tests {
+		times[id]++
+		if times[id] > holders[id] {
+			return fmt.Errorf("entry %q is listed %d times in the summary but only %d used file(s) hold an entry with that id: %q", id, times[id], holders[id], clip(r.sum.Raw))
+		}
 	}
 	for p, st := range r.preClean {
 		if st.IsDir || !m.visited[filepath.Dir(p)] || !strings.Contains(filepath.Base(p), ".snap") {
